@@ -7,6 +7,12 @@ from pathlib import Path
 
 
 def main():
+    # A process started as an asynchronous command of a non-interactive shell (`cmd &`) inherits SIGINT = SIG_IGN, and
+    # python then installs no KeyboardInterrupt handler at all: every SIGINT would be dropped before it reaches the
+    # engine.  The case is about what the engine does when python raises KeyboardInterrupt, so the standard handler is
+    # installed explicitly.
+    import signal
+    signal.signal(signal.SIGINT, signal.default_int_handler)
     from fjverif import env
     env.activate()
     from fjverif.props import c18
